@@ -248,6 +248,9 @@ class Units:
             return sub(self.unit_of(fn, t["args"][0], depth + 1), self.unit_of(fn, t["args"][1], depth + 1))
         if name in ("max", "min"):
             return join(self.unit_of(fn, t["args"][0], depth + 1), self.unit_of(fn, t["args"][1], depth + 1))
+        if d in ("std::mem::replace", "std::mem::take") and t["args"]:
+            # the old content of the place: whatever unit the place holds
+            return self.unit_of(fn, t["args"][0], depth + 1)
         if name in PASS_THROUGH and t["args"]:
             u = self.unit_of(fn, t["args"][0], depth + 1)
             if name == "unwrap_or" and len(t["args"]) > 1:
@@ -321,6 +324,14 @@ class Units:
                     u = self.param_unit(target, i)
                     if u and i - 1 < len(t["args"]):
                         out.append((u, t["args"][i - 1], "argument `%s` of %s" % (target.local_name(i), target.name), t["line"]))
+            if cal.get("def") == "std::mem::replace" and len(t["args"]) == 2:
+                # mem::replace(&mut x.f, v) writes v into the seeded field f
+                from .rules.common import ref_target_fields
+                fs = ref_target_fields(fn, t["args"][0])
+                if fs:
+                    u = self.field_unit(fs[-1].get("of"), fs[-1].get("name", ""))
+                    if u:
+                        out.append((u, t["args"][1], "write of %s.%s" % ((fs[-1].get("of") or "").rsplit("::", 1)[-1], fs[-1].get("name")), t["line"]))
         for bi, si, s in fn.assigns():
             rv = s["rv"]
             a = rv.get("agg")
